@@ -24,6 +24,7 @@ import ClairModel.Proofs.JsonBlob
 import ClairModel.Proofs.JsonBlobLoad
 import ClairModel.Proofs.JsonBlobFault
 import ClairModel.Proofs.JsonBlobImport
+import ClairModel.Proofs.OfflineV1
 import ClairModel.Gen.OfflineImport
 
 -- every variable of a property statement is bound explicitly: a misspelt name is an error, not a new variable
@@ -498,5 +499,129 @@ theorem import_skip_ignores_kind (known : String → List String) (u : Update) (
   by_cases h : (known u.updater).contains u.fp = true
   · rw [h]; rfl
   · rw [Bool.not_eq_true] at h; rw [h]; rfl
+
+/-! ### The zip-of-zips export and import (updater/offline.go, updater/offline_v1.go)
+
+  Model: Model/OfflineV1.lean.  `exportV1 prev raw order refs` is what
+  `Updater.Fetch(ctx, prev, out)` writes when the factories hand out `raw`, the
+  workers' results reach the collector in the order `order` and `addUpdater`
+  draws the uuids `refs`; `importV1 raw z` is what `Updater.Parse` does to the
+  store.  Tied to the code by the correspondence run (real zip paths, real
+  store calls). -/
+
+section V1
+open ClairModel.OfflineV1
+
+/-- Both halves iterate `Updater.updaters`: pairwise different names, none with
+    a '/', all from the factories — so `name/fingerprint`, `name/ref` and
+    `name/data` name one updater each. -/
+theorem v1_updaters_names_distinct (raw : List Upd) :
+    (updaters raw).Pairwise (fun a b => a.name ≠ b.name) ∧
+    ∀ u ∈ updaters raw, u ∈ raw ∧ hasSlash u.name = false :=
+  ⟨updaters_distinct raw, updaters_mem raw⟩
+
+/-- Some arrival order is always accepted (the hypotheses below are satisfiable). -/
+theorem v1_export_exists (prev : Option Zip) (raw : List Upd) (refs : List Nat) :
+    ∃ order z, exportV1 prev raw order refs = some z := by
+  refine ⟨((updaters raw).filter (exported (prevFingerprints prev))).map (·.name), ?_⟩
+  simp only [exportV1, arrangeU_self _ (List.Pairwise.filter _ (updaters_distinct raw))]
+  exact ⟨_, rfl⟩
+
+/-- Export then import loses nothing.  Whatever the arrival order of the
+    workers' results and whatever uuids are drawn: importing the export makes,
+    for every updater whose Fetch succeeded (and did not report "unchanged"),
+    in name order, `UpdateVulnerabilities` with its name, its fingerprint, the
+    ref written for it and all its vulnerabilities in order (if it parses
+    vulnerabilities and has any), then `UpdateEnrichments` likewise; it makes
+    no call for any other updater, and returns nil.  Hypothesis: every updater
+    implements at least one of the two parser interfaces (otherwise `parseOne`
+    returns "did nothing" and the import stops there). -/
+theorem v1_export_import_roundtrip (prev : Option Zip) (raw : List Upd) (order : List String)
+    (refs : List Nat) (z : Zip) (hex : exportV1 prev raw order refs = some z)
+    (hrefs : (updaters raw).length ≤ refs.length)
+    (hparse : ∀ u ∈ raw, (u.hasV || u.hasE) = true) :
+    importV1 raw z =
+      ((updaters raw).flatMap fun u =>
+          if exported (prevFingerprints prev) u then callsFor u (refIn z u.name) else [], true) := by
+  unfold exportV1 at hex
+  cases ha : arrangeU ((updaters raw).filter (exported (prevFingerprints prev))) order with
+  | none => simp [ha] at hex
+  | some ord =>
+    simp only [ha, Option.some.injEq] at hex
+    subst hex
+    have hperm := arrangeU_perm order _ _ (List.Pairwise.filter _ (updaters_distinct raw)) ha
+    have hl : ord.length ≤ refs.length := by
+      have h1 := hperm.length_eq
+      have h2 := List.length_filter_le (exported (prevFingerprints prev)) (updaters raw)
+      omega
+    exact importList_export (prevFingerprints prev) ord refs (updaters raw) (updaters_distinct raw) hperm hl
+      (updaters raw) (fun u hu => hu) (fun u hu => hparse u (updaters_mem raw u hu).1)
+
+/-- The two calls of one updater share its ref (`callsFor` above takes one ref);
+    different updaters get different refs when `uuid.New()` does not repeat. -/
+theorem v1_refs_differ_between_updaters (ord : List Upd) (refs : List Nat)
+    (hd : ord.Pairwise (fun a b => a.name ≠ b.name)) (hl : ord.length ≤ refs.length)
+    (hr : refs.Pairwise (· ≠ ·)) (u v : Upd) (hu : u ∈ ord) (hv : v ∈ ord) (hne : u.name ≠ v.name) :
+    refIn (writeAll ord refs) u.name ≠ refIn (writeAll ord refs) v.name := by
+  obtain ⟨r, hr1⟩ := mem_zip_of_mem ord refs hl u hu
+  obtain ⟨s, hs1⟩ := mem_zip_of_mem ord refs hl v hv
+  have h1 := (lookup_writeAll ord refs hd (u, r) hr1).2.2.1
+  have h2 := (lookup_writeAll ord refs hd (v, s) hs1).2.2.1
+  simp only at h1 h2
+  simp only [refIn, h1, h2, Option.getD_some]
+  intro hrs
+  subst hrs
+  -- one ref, two different updaters: impossible in a zip with a duplicate-free second column
+  have key : ∀ (o : List Upd) (rs : List Nat), rs.Pairwise (· ≠ ·) →
+      ∀ a b : Upd, (a, r) ∈ o.zip rs → (b, r) ∈ o.zip rs → a = b := by
+    intro o
+    induction o with
+    | nil => intro rs _ a b ha; simp at ha
+    | cons x o ih =>
+      intro rs hrs a b ha hb
+      cases rs with
+      | nil => simp at ha
+      | cons t ts =>
+        simp only [List.zip_cons_cons, List.mem_cons, Prod.mk.injEq] at ha hb
+        have hts := List.pairwise_cons.1 hrs
+        rcases ha with ⟨ha1, ha2⟩ | ha <;> rcases hb with ⟨hb1, hb2⟩ | hb
+        · rw [ha1, hb1]
+        · exact absurd ha2.symm (hts.1 r (List.of_mem_zip hb).2)
+        · exact absurd hb2.symm (hts.1 r (List.of_mem_zip ha).2)
+        · exact ih ts hts.2 a b ha hb
+  exact hne (congrArg Upd.name (key ord refs hr u v hr1 hs1))
+
+/-- Export against a previous export: an updater is written again iff its Fetch
+    does not fail and the previous export holds no fingerprint for its name, an
+    empty one, or one that differs from its current fingerprint. -/
+theorem v1_incremental_export_leaves_out_unchanged (zprev : Zip) (u : Upd) :
+    exported (prevFingerprints (some zprev)) u = true ↔
+      u.fetchErr = false ∧ ((fpOf zprev u.name).getD "" = "" ∨ (fpOf zprev u.name).getD "" ≠ u.fp) := by
+  simp only [exported, prevFingerprints, Bool.and_eq_true, Bool.not_eq_true', Bool.and_eq_false_iff,
+    bne_eq_false_iff_eq, beq_eq_false_iff_ne]
+
+/-- Before the `fix:` commit the previous fingerprints were keyed by `name/`
+    (what `path.Split` leaves) and looked up by `name`: the lookup never hit, so
+    an unchanged updater was exported again in full.  Nothing was lost by that —
+    the export was a superset — but `Fetch`'s contract ("only changes since
+    prev are written out") did not hold. -/
+def prevFingerprintsPreFix (prev : Option Zip) (name : String) : String :=
+  match prev with
+  | none => ""
+  | some z => (z.findSome? fun f =>
+      if f.name ++ "/" == name then (match f.part with | .fingerprint fp => some fp | _ => none) else none).getD ""
+
+theorem v1_prev_fingerprint_key_counterexample :
+    let u : Upd := { name := "rhel", fp := "etag-1", vulns := [1] }
+    let zprev := writeAll [u] [7]
+    exported (prevFingerprintsPreFix (some zprev)) u = true ∧
+    exported (prevFingerprints (some zprev)) u = false := by
+  decide
+
+/-- `Parse` accepts exactly the header `Fetch` writes. -/
+theorem v1_header (h : String) : parseAccepts h = true ↔ h = "1" := by
+  simp [parseAccepts]
+
+end V1
 
 end ClairModel.Props.C16
